@@ -39,6 +39,12 @@ func (c *Check) forEachShard(h *Harness, label string, n int, input []byte, body
 func (c *Check) RunDFS(h *Harness, depth int) {
 	label := c.NextRunLabel()
 	A := h.Alphabet
+	if c.Replaying() {
+		if !IsChild() {
+			c.tryReplay(h)
+		}
+		return
+	}
 	if depth < 1 || len(A) == 0 {
 		return
 	}
@@ -168,6 +174,9 @@ type bfsRec struct {
 func (c *Check) RunBFS(h *Harness, depth int, maxStates int) {
 	label := c.NextRunLabel()
 	A := h.Alphabet
+	if c.Replaying() {
+		return
+	}
 	c.Bound("phaseB_depth", depth)
 	c.Bound("phaseB_max_states", maxStates)
 
